@@ -58,6 +58,7 @@ type File struct {
 	Raw        bool     `json:"raw,omitempty"`
 	UnknownTop bool     `json:"unknownTop,omitempty"`
 	Garbage    bool     `json:"garbage,omitempty"` // non-raw: contains commands the parser ignores
+	SvcGroups  bool     `json:"svcGroups,omitempty"` // PAN-OS: every vsys with rules also defines a service-group its first rule uses
 	Conts      []Cont   `json:"conts"`
 	Anchors    []Anchor `json:"anchors"`
 }
@@ -345,7 +346,9 @@ func renderLinux(f File) string {
 const panPre = `<config><devices><entry name="localhost.localdomain"><vsys>`
 const panPost = `</vsys></entry></devices></config>`
 
-func renderPan(f File) string {
+func panGroup(vsys int, tag string) string { return fmt.Sprintf("sg%d_%s", vsys, tag) }
+
+func renderPan(f File, tag string) string {
 	var sb strings.Builder
 	sb.WriteString(panPre)
 	for _, c := range f.Conts {
@@ -363,12 +366,23 @@ func renderPan(f File) string {
 			if l.App {
 				app = "<APPEND/>"
 			}
+			svc := "any"
+			if f.SvcGroups && i == 0 {
+				svc = panGroup(c.Name, tag)
+			}
 			fmt.Fprintf(&sb, `<entry name="%s"><action>%s</action><from><member>z1</member></from><to><member>z2</member></to>`+
 				`<source><member>any</member></source><destination><member>any</member></destination>`+
-				`<service><member>any</member></service><application><member>any</member></application>%s</entry>`+"\n",
-				name, act, app)
+				`<service><member>%s</member></service><application><member>any</member></application>%s</entry>`+"\n",
+				name, act, svc, app)
 		}
-		sb.WriteString(`</rules></security></rulebase></entry>`)
+		sb.WriteString(`</rules></security></rulebase>`)
+		if f.SvcGroups && len(c.Lines) > 0 {
+			port := 8000 + c.Name*3 + strings.Index("46r", tag)
+			fmt.Fprintf(&sb, `<service><entry name="tcp %d"><protocol><tcp><port>%d</port></tcp></protocol></entry></service>`+
+				`<service-group><entry name="%s"><members><member>tcp %d</member></members></entry></service-group>`,
+				port, port, panGroup(c.Name, tag), port)
+		}
+		sb.WriteString(`</entry>`)
 	}
 	sb.WriteString(panPost)
 	return sb.String()
@@ -421,7 +435,13 @@ func (c Case) files() map[string]string {
 		case "linux":
 			fs[name] = renderLinux(f)
 		case "panos":
-			fs[name] = renderPan(f)
+			tag := "4"
+			if v6 {
+				tag = "6"
+			} else if f.Raw {
+				tag = "r"
+			}
+			fs[name] = renderPan(f, tag)
 		case "nsx":
 			fs[name] = renderNsx(f)
 		}
@@ -468,6 +488,7 @@ type outcome struct {
 	Lists map[int][]string // Cisco: anchor key -> tokens; others: container name -> tokens
 	Warn  []int
 	Odd   []string // output lines the reader does not understand
+	Groups map[string]bool // PAN-OS: service-groups the change script creates
 }
 
 var reNum = regexp.MustCompile(`\d+`)
@@ -631,8 +652,16 @@ func readOutcome(dev, stdout, stderr, panicMsg string) outcome {
 		}
 	case "panos":
 		re := regexp.MustCompile(`^action=(\w+)&type=config&xpath=.*/vsys/entry\[@name='vsys(\d+)'\]/rulebase/security/rules/entry\[@name='x(\d+)'\]`)
+		reObj := regexp.MustCompile(`^action=set&type=config&xpath=.*/vsys/entry\[@name='vsys\d+'\]/(service|service-group)/entry\[@name='([^']+)'\]`)
+		o.Groups = map[string]bool{}
 		for _, l := range lines {
 			u, _ := url.QueryUnescape(l)
+			if m := reObj.FindStringSubmatch(u); m != nil {
+				if m[1] == "service-group" {
+					o.Groups[m[2]] = true
+				}
+				continue
+			}
 			m := re.FindStringSubmatch(u)
 			if m == nil || m[1] != "set" {
 				o.Odd = append(o.Odd, u)
@@ -1199,6 +1228,20 @@ func oracle(c Case, o outcome, safe6 bool) []violation {
 		}
 		return vs
 	}
+	if c.Dev == "panos" {
+		// objects a part defines and its own rules use must reach the target as well
+		for i, f := range []File{c.V4, c.V6, c.Raw} {
+			if !f.Present || !f.SvcGroups {
+				continue
+			}
+			for _, ct := range f.Conts {
+				if g := panGroup(ct.Name, []string{"4", "6", "r"}[i]); len(ct.Lines) > 0 && !o.Groups[g] {
+					vs = append(vs, violation{"panos_service_group_dropped",
+						fmt.Sprintf("service-group %s, defined in part %d and used by its rule, is not transferred", g, i)})
+				}
+			}
+		}
+	}
 	names := map[int]bool{}
 	for _, f := range []File{c.V4, c.V6, c.Raw} {
 		for _, ct := range f.Conts {
@@ -1453,6 +1496,7 @@ func (g *gen) genConts(dev string) Case {
 			Shuffle(r, f.Conts)
 		}
 		f.UnknownTop = raw && r.Chance(3) && len(f.Conts) > 0 && (dev == "linux" || len(f.Conts[0].Lines) > 0)
+		f.SvcGroups = dev == "panos" && r.Chance(30)
 	}
 	pc := 55
 	if dev == "linux" {
@@ -1550,6 +1594,10 @@ func corpus() []Case {
 		V4:  File{Present: true, Conts: []Cont{{Name: 1, Lines: []Line{L(10, "p", false), L(11, "d", false)}}}},
 		V6:  File{Present: true, Conts: []Cont{{Name: 1, Lines: []Line{L(20, "p", false)}}}},
 		Raw: File{Present: true, Raw: true, Conts: []Cont{{Name: 1, Lines: []Line{L(1, "p", false), L(2, "d", true), L(3, "d", false), L(4, "p", true)}}, {Name: 2, Lines: []Line{L(5, "d", true), L(6, "p", false)}}}}})
+	// F-C18h: service-group defined in the raw file and used by a raw rule
+	cs = append(cs, Case{Dev: "panos",
+		V4:  File{Present: true, Conts: []Cont{{Name: 1, Lines: []Line{L(10, "p", false)}}}},
+		Raw: File{Present: true, Raw: true, SvcGroups: true, Conts: []Cont{{Name: 1, Lines: []Line{L(1, "p", false)}}}}})
 	cs = append(cs, Case{Dev: "nsx",
 		V4:  File{Present: true, Conts: []Cont{{Name: 1, Lines: []Line{L(10, "p", false), L(11, "d", false)}}}},
 		V6:  File{Present: true, Conts: []Cont{{Name: 1, Lines: []Line{L(20, "p", false)}}, {Name: 2, Lines: []Line{L(21, "p", false)}}}},
